@@ -17,12 +17,21 @@
 //   own  <conn> <S> <T>
 //   owit <conn> <m> i_0 .. i_{m-1}          cheapest path of the own search space (untrusted Dijkstra)
 //   opot <conn> <default> <k> (v p pi)*k    potential over the states (p = n: none), scaled to be exactly feasible
+// For the A* model tie (classes that ask for it) additionally, per case:
+//   oa <v> <k> (w dist)*k       the enabled edges of v in visList order (= examination order of the search), getDist()
+// and per connector:
+//   as   <conn> <S> <T>
+//   oh   <conn> h_0 .. h_{n-1}  euclideanDist(vertex, target) as the library computes it (the heuristic)
+//   pop  <conn> <len> v_0 .. v_{len-1}   one line per popped node, in expansion order: the vertices of its prevNode chain
+//                               (v_0 the node itself ... v_{len-1} the source), as reported by the library's own
+//                               DebugHandler::updateCurrentSearchPath
 #ifndef VERIF_C04_OWN_H
 #define VERIF_C04_OWN_H
 #include "avoid_scene.h"
 #include <map>
 #include <queue>
 #include <limits>
+#include "libavoid/debughandler.h"
 
 namespace own {
 using namespace Avoid;
@@ -38,13 +47,14 @@ struct Graph {
     std::vector<LP> P; std::vector<Point> PD;
     std::vector<long> prev, next; std::vector<char> isConn;
     std::vector<std::vector<long> > adj;        // enabled, non-zero edges in visList order
+    std::vector<std::vector<double> > dist;     // their getDist()
 };
 
 static inline Graph read(Router *router) {
     Graph g;
     for (VertInf *v = router->vertices.connsBegin(); v != router->vertices.end(); v = v->lstNext) { g.idx[v] = (long) g.vs.size(); g.vs.push_back(v); }
     size_t n = g.vs.size();
-    g.adj.resize(n);
+    g.adj.resize(n); g.dist.resize(n);
     for (size_t i = 0; i < n; ++i) {
         VertInf *v = g.vs[i];
         g.P.push_back(toLP(v->point)); g.PD.push_back(v->point);
@@ -54,7 +64,7 @@ static inline Graph read(Router *router) {
         for (EdgeInfList::const_iterator e = v->visList.begin(); e != v->visList.end(); ++e) {
             if ((*e)->isDisabled() || (*e)->getDist() == 0) continue;
             VertInf *w = (*e)->otherVert(v);
-            if (g.idx.count(w)) g.adj[i].push_back(g.idx[w]);
+            if (g.idx.count(w)) { g.adj[i].push_back(g.idx[w]); g.dist[i].push_back((*e)->getDist()); }
         }
     }
     return g;
@@ -145,6 +155,48 @@ static inline double routeCost(const std::vector<Point> &ps, double penalty) {
         }
     }
     return c + penalty * nb;
+}
+
+// records, per search (keyed by the points of its start and target vertex), the popped nodes
+struct PopTap : public Avoid::DebugHandler {
+    struct Search { Point s, t; std::vector<std::vector<Point> > chains; };
+    std::vector<Search> searches;
+    void beginningSearchWithEndpoints(VertInf *s, VertInf *t) override { Search x; x.s = s->point; x.t = t->point; searches.push_back(x); }
+    void updateCurrentSearchPath(PolyLine p) override {
+        if (searches.empty() || p.size() == 0) return;
+        searches.back().chains.push_back(p.ps);
+    }
+};
+
+static inline void dumpAdj(const Graph &g) {
+    for (size_t i = 0; i < g.vs.size(); ++i) {
+        printf("oa %zu %zu", i, g.adj[i].size());
+        for (size_t j = 0; j < g.adj[i].size(); ++j) printf(" %ld %s", g.adj[i][j], vh::hx(g.dist[i][j]).c_str());
+        printf("\n");
+    }
+}
+
+// index of the vertex at point p as the search of the connector (S, T) sees it: a shape corner, or S / T
+static inline long vertexAt(const Graph &g, const Point &p, long S, long T) {
+    for (size_t i = 0; i < g.vs.size(); ++i) if (!g.isConn[i] && g.PD[i].x == p.x && g.PD[i].y == p.y) return (long) i;
+    if (g.PD[S].x == p.x && g.PD[S].y == p.y) return S;
+    if (g.PD[T].x == p.x && g.PD[T].y == p.y) return T;
+    return -2;
+}
+
+static inline void emitAStar(const Graph &g, const PopTap &tap, unsigned conn, long S, long T) {
+    printf("as %u %ld %ld\n", conn, S, T);
+    printf("oh %u", conn);
+    for (size_t i = 0; i < g.vs.size(); ++i) printf(" %s", vh::hx(euclideanDist(g.PD[i], g.PD[T])).c_str());
+    printf("\n");
+    const PopTap::Search *x = nullptr;
+    for (auto &q : tap.searches) if (q.s.x == g.PD[S].x && q.s.y == g.PD[S].y && q.t.x == g.PD[T].x && q.t.y == g.PD[T].y) x = &q;   // the last such search
+    if (!x) return;
+    for (auto &ch : x->chains) {
+        printf("pop %u %zu", conn, ch.size());
+        for (auto &q : ch) printf(" %ld", vertexAt(g, q, S, T));
+        printf("\n");
+    }
 }
 }   // namespace own
 #endif
